@@ -56,6 +56,9 @@ type Job struct {
 	Probe           func(it *Interp, fn *ssa.Function, name string, v Value) bool
 	OnJSONUnmarshal func(it *Interp, dst *IfaceV)
 	JSONLens        []int
+	Stubs           map[string]interceptFn
+	OneShot         bool // non-incremental solving (floating point)
+	UnwindIsBound   bool // reaching the unwinding bound is a stated bound (outside the claim), not an unwinding failure
 
 	mu  sync.Mutex
 	res JobResult
@@ -173,6 +176,7 @@ func Explore(prog *ssa.Program, j *Job) *JobResult {
 			defer wg.Done()
 			ctx := NewCtx()
 			sol := NewSolver(ctx, j.Solver, j.IntMode, j.TimeoutMs)
+			sol.oneShot = j.OneShot
 			defer func() { sol.Close() }()
 			cache := newSatCache()
 			npaths := 0
@@ -209,6 +213,7 @@ func Explore(prog *ssa.Program, j *Job) *JobResult {
 					sol.Close()
 					ctx = NewCtx()
 					sol = NewSolver(ctx, j.Solver, j.IntMode, j.TimeoutMs)
+					sol.oneShot = j.OneShot
 					cache = newSatCache()
 				}
 				alts := runPath(prog, j, ctx, sol, cache, prefix)
@@ -280,7 +285,7 @@ func runPath(prog *ssa.Program, j *Job, ctx *Ctx, sol *Solver, cache *SatCache, 
 	if outcome == "blocked" && !j.BlockedOK {
 		r, m := sol.Check(true)
 		if r == "sat" {
-			it.violations = append(it.violations, Violation{Msg: detail, Site: it.curFn, Model: m, Kind: "blocked", Decisions: append([]int{}, it.taken...)})
+			it.violations = append(it.violations, Violation{Msg: detail, Site: it.fnName(), Model: m, Kind: "blocked", Decisions: append([]int{}, it.taken...)})
 		}
 	}
 	for i := range it.violations {
@@ -291,6 +296,9 @@ func runPath(prog *ssa.Program, j *Job, ctx *Ctx, sol *Solver, cache *SatCache, 
 	}
 	j.mu.Lock()
 	j.res.Outcomes[outcome]++
+	if outcome == "unwind" && j.UnwindIsBound {
+		outcome = "truncated"
+	}
 	switch outcome {
 	case "inconclusive", "unwind":
 		j.res.Inconclusive[detail]++
